@@ -74,7 +74,8 @@ pub struct ScriptUse {
     /// Script delivered through a reference input instead of the witness set.
     pub by_reference: bool,
     pub unique: u32,
-    /// For `Purpose::Cert`: which certificate the script authorises (see `script_certificate`).
+    /// For `Purpose::Cert`: which certificate the script authorises (see `script_certificate`);
+    /// for `Purpose::Vote`: odd = the script is a committee member, even = a DRep.
     #[serde(default)]
     pub cert_kind: u8,
 }
@@ -134,6 +135,14 @@ pub struct Scenario {
     /// a script credential in a position that authorises nothing) interleaved with the others.
     #[serde(default)]
     pub noise_certs: u8,
+    /// Withdrawals from key-hash reward accounts and votes cast by key voters (committee, DRep,
+    /// stake pool) next to the script ones: they need no script, but they take part in the
+    /// ledger's ordering (script credentials before key credentials; committee before DRep
+    /// before stake-pool voters), which is what redeemer indices refer to.
+    #[serde(default)]
+    pub noise_withdrawals: u8,
+    #[serde(default)]
+    pub noise_voters: u8,
 }
 
 // ------------------------------------------------------------------------------------------
@@ -281,9 +290,11 @@ pub fn assemble(sc: &Scenario) -> Result<Assembled, String> {
     let mut witness_scripts: Vec<(u8, Vec<u8>, usize)> = vec![];
     let mut witness_datums: Vec<(PlutusData, usize)> = vec![];
     let mut mint: Vec<([u8; 28], usize)> = vec![];
-    let mut withdrawals: Vec<(Vec<u8>, usize)> = vec![];
+    // (is a key account, reward account bytes, script)
+    let mut withdrawals: Vec<(bool, Vec<u8>, Option<usize>)> = vec![];
     let mut certs: Vec<(Certificate, Option<usize>)> = vec![];
-    let mut voters: Vec<([u8; 28], usize)> = vec![];
+    // (rank in the ledger's order of voters, hash, script)
+    let mut voters: Vec<(u8, [u8; 28], Option<usize>)> = vec![];
     let mut proposals: Vec<([u8; 28], usize)> = vec![];
     // spend: (input, script idx, datum)
     let mut spends: Vec<(TransactionInput, usize, PlutusData)> = vec![];
@@ -306,9 +317,9 @@ pub fn assemble(sc: &Scenario) -> Result<Assembled, String> {
         }
         match &s.purpose {
             Purpose::Mint => mint.push((b.hash, i)),
-            Purpose::Withdraw => withdrawals.push((script_reward_account(&b.hash), i)),
+            Purpose::Withdraw => withdrawals.push((false, script_reward_account(&b.hash), Some(i))),
             Purpose::Cert => certs.push((script_certificate(s.cert_kind, &b.hash, &mut Rng::new(sc.tx_seed ^ (0xce57 + i as u64))), Some(i))),
-            Purpose::Vote => voters.push((b.hash, i)),
+            Purpose::Vote => voters.push((if s.cert_kind % 2 == 1 { 0 } else { 2 }, b.hash, Some(i))),
             Purpose::Propose => proposals.push((b.hash, i)),
             Purpose::Spend { inline_datum } => {
                 let input = fresh_input(&mut rng);
@@ -341,8 +352,23 @@ pub fn assemble(sc: &Scenario) -> Result<Assembled, String> {
     inputs.sort();
     inputs.dedup();
     mint.sort_by(|a, b| a.0.cmp(&b.0));
-    withdrawals.sort_by(|a, b| a.0.cmp(&b.0));
-    voters.sort_by(|a, b| a.0.cmp(&b.0));
+    {
+        let mut r = Rng::new(sc.tx_seed ^ 0x7769_7468);
+        for _ in 0..sc.noise_withdrawals {
+            let mut a = vec![0xE0];
+            a.extend(r.bytes(28));
+            withdrawals.push((true, a, None));
+        }
+        for _ in 0..sc.noise_voters {
+            let mut h = [0u8; 28];
+            h.copy_from_slice(&r.bytes(28));
+            voters.push((*r.pick(&[1u8, 3, 4]), h, None));
+        }
+    }
+    // the ledger's order: script credentials before key credentials, then by hash; committee
+    // voters before DReps before stake pools
+    withdrawals.sort_by(|a, b| (a.0, &a.1).cmp(&(b.0, &b.1)));
+    voters.sort_by(|a, b| (a.0, a.1).cmp(&(b.0, b.1)));
 
     let mut plan: Vec<PlannedRedeemer> = vec![];
     for (input, si, datum) in &spends {
@@ -381,7 +407,8 @@ pub fn assemble(sc: &Scenario) -> Result<Assembled, String> {
             datum: None,
         });
     }
-    for (pos, (_, si)) in withdrawals.iter().enumerate() {
+    for (pos, (_, _, si)) in withdrawals.iter().enumerate() {
+        let Some(si) = si else { continue };
         plan.push(PlannedRedeemer {
             tag: RedeemerTag::Reward,
             index: pos as u32,
@@ -391,7 +418,8 @@ pub fn assemble(sc: &Scenario) -> Result<Assembled, String> {
         });
     }
 
-    for (pos, (_, si)) in voters.iter().enumerate() {
+    for (pos, (_, _, si)) in voters.iter().enumerate() {
+        let Some(si) = si else { continue };
         plan.push(PlannedRedeemer {
             tag: RedeemerTag::Vote,
             index: pos as u32,
@@ -523,7 +551,7 @@ pub fn assemble(sc: &Scenario) -> Result<Assembled, String> {
         fee: 200_000,
         ttl: sc.validity.1,
         certificates: NonEmptySet::from_vec(certs.iter().map(|(c, _)| c.clone()).collect()),
-        withdrawals: NonEmptyKeyValuePairs::from_vec(withdrawals.iter().map(|(a, _)| (Bytes::from(a.clone()), 0u64)).collect()),
+        withdrawals: NonEmptyKeyValuePairs::from_vec(withdrawals.iter().map(|(_, a, _)| (Bytes::from(a.clone()), 0u64)).collect()),
         auxiliary_data_hash: None,
         validity_interval_start: sc.validity.0,
         mint: NonEmptyKeyValuePairs::from_vec(
@@ -546,11 +574,18 @@ pub fn assemble(sc: &Scenario) -> Result<Assembled, String> {
         voting_procedures: NonEmptyKeyValuePairs::from_vec(
             voters
                 .iter()
-                .map(|(h, si)| {
+                .map(|(rank, h, si)| {
+                    let h28 = pallas_crypto_hash28(h);
                     (
-                        Voter::DRepScript(pallas_crypto_hash28(h)),
+                        match rank {
+                            0 => Voter::ConstitutionalCommitteeScript(h28),
+                            1 => Voter::ConstitutionalCommitteeKey(h28),
+                            2 => Voter::DRepScript(h28),
+                            3 => Voter::DRepKey(h28),
+                            _ => Voter::StakePoolKey(h28),
+                        },
                         NonEmptyKeyValuePairs::from_vec(vec![(
-                            GovActionId { transaction_id: pallas_crypto_hash32(&[*si as u8 + 1; 32]), action_index: 0 },
+                            GovActionId { transaction_id: pallas_crypto_hash32(&[si.unwrap_or(200) as u8 + 1; 32]), action_index: 0 },
                             VotingProcedure { vote: Vote::Yes, anchor: Nullable::Null },
                         )])
                         .unwrap(),
@@ -1110,6 +1145,10 @@ fn answer(sc: &Scenario) -> Result<String, String> {
 }
 
 /// Validity bounds in the script context equal zero_time + (slot − zero_slot)·slot_length.
+fn clock_class(msg: &str) -> &'static str {
+    if msg.starts_with("validity range") { "clock" } else { "context-refused" }
+}
+
 fn check_clock(sc: &Scenario) -> Result<Option<String>, String> {
     let asm = assemble(sc)?;
     let tx: MintedTx = MintedTx::decode_fragment(&asm.tx_bytes).map_err(|e| format!("{e}"))?;
@@ -1165,6 +1204,9 @@ fn gen_scenario(rng: &mut Rng) -> Scenario {
             cert_kind: if purpose == Purpose::Cert {
                 // Conway-only certificates have no Plutus V1/V2 script context
                 if version == 3 { rng.below(CERT_KINDS as u64) as u8 } else { rng.below(2) as u8 }
+            } else if purpose == Purpose::Vote {
+                // odd: the script votes as a committee member, even: as a DRep
+                rng.below(2) as u8
             } else {
                 0
             },
@@ -1217,6 +1259,8 @@ fn gen_scenario(rng: &mut Rng) -> Scenario {
         run_phase_one: rng.chance(3, 4),
         permute_body: if rng.chance(1, 2) { rng.next_u64() | 1 } else { 0 },
         noise_certs: if all_v3 && rng.chance(1, 2) { 1 + rng.below(3) as u8 } else { 0 },
+        noise_withdrawals: if rng.chance(1, 2) { 1 + rng.below(2) as u8 } else { 0 },
+        noise_voters: if all_v3 && rng.chance(1, 2) { 1 + rng.below(3) as u8 } else { 0 },
     }
 }
 
@@ -1390,14 +1434,14 @@ impl Engine for TxEngine {
                 }
                 // Clock configuration.
                 match check_clock(&sc) {
-                    Ok(Some(msg)) => violations.push(("clock".into(), msg)),
+                    Ok(Some(msg)) => violations.push((clock_class(&msg).into(), msg)),
                     Ok(None) => ctx.stats.inc("clock_checks", 1),
                     Err(e) => ctx.harness_error(e),
                 }
             }
             if !violations.is_empty() {
                 let classes: Vec<String> = violations.iter().map(|(c, _)| c.clone()).collect();
-                let min = if classes.iter().any(|c| c == "clock" || c == "order-dependent") { sc.clone() } else { minimise(&sc, &classes) };
+                let min = if classes.iter().any(|c| c == "clock" || c == "context-refused" || c == "order-dependent") { sc.clone() } else { minimise(&sc, &classes) };
                 if min != sc {
                     if let Ok(o) = execute(&min) {
                         if !o.violations.is_empty() {
@@ -1441,7 +1485,7 @@ impl Engine for TxEngine {
                 }
             }
             if let Ok(Some(msg)) = check_clock(&sc) {
-                violations.push(("clock".into(), msg));
+                violations.push((clock_class(&msg).into(), msg));
             }
         }
         report(ctx, &sc, &violations, false);
